@@ -54,6 +54,8 @@ def _is_ctor_of(t, variant):
 
 
 def _is_other_ctor(t, variant):
+    if variant in ("Ok", "Some") and t[0] == "call" and t[1] == "core::ops::try_trait::FromResidual::from_residual":
+        return True     # the early return of a `?` inside an inlined helper: an Err / None, whatever it carries
     return t[0] == "aggr" and t[1] in (OPTION, RESULT) and t[2] != variant
 
 
